@@ -114,6 +114,48 @@ impl Front {
         })), panic!("peek: bad type {ty}"))
     }
 
+    pub fn peek_untyped(&self, ty: &str, id: &str) -> Option<&assets_manager::UntypedHandle> {
+        with_storable!(ty, T => on_cache!(self, c => c.get_cached::<T>(id).map(|h| h.as_untyped())), panic!("peek: bad type {ty}"))
+    }
+
+    /// hot_reload with a ReloadWatcher and the global flag of every cached handle checked
+    /// around the call (C06). Returns (returned in time, complaints).
+    pub fn hot_reload_watched(&self, keys: &[(String, String)], d: std::time::Duration) -> (bool, Vec<Value>) {
+        let hs: Vec<_> = keys.iter().filter_map(|(t, i)| self.peek_untyped(t, i).map(|h| (t, i, h))).collect();
+        let mut ws: Vec<_> = hs.iter().map(|(t, i, h)| (*t, *i, *h, h.reload_watcher(), h.last_reload_id())).collect();
+        let mut bad = Vec::new();
+        for (t, i, h, w, _) in ws.iter_mut() {
+            let _ = h.reloaded_global();
+            if w.reloaded() {
+                bad.push(json!({"what":"fresh ReloadWatcher reports a reload","ty":t,"id":i}));
+            }
+        }
+        let ok = self.hot_reload_timeout(d);
+        for (t, i, h, w, before) in ws.iter_mut() {
+            let after = h.last_reload_id();
+            let changed = after != *before;
+            if after < *before {
+                bad.push(json!({"what":"reload id decreased","ty":t,"id":i}));
+            }
+            if w.last_reload_id() != after {
+                bad.push(json!({"what":"watcher.last_reload_id differs from the handle's","ty":t,"id":i}));
+            }
+            let r1 = w.reloaded();
+            let r2 = w.reloaded();
+            if r1 != changed || r2 {
+                bad.push(json!({"what":"ReloadWatcher::reloaded is not (true exactly once iff the id grew)","ty":t,"id":i,
+                    "grew":changed,"first":r1,"second":r2}));
+            }
+            let g1 = h.reloaded_global();
+            let g2 = h.reloaded_global();
+            if g1 != changed || g2 {
+                bad.push(json!({"what":"reloaded_global is not (true exactly once iff the id grew)","ty":t,"id":i,
+                    "grew":changed,"first":g1,"second":g2}));
+            }
+        }
+        (ok, bad)
+    }
+
     pub fn contains(&self, ty: &str, id: &str) -> bool {
         with_storable!(ty, T => on_cache!(self, c => c.contains::<T>(id)), panic!("contains: bad type {ty}"))
     }
@@ -157,6 +199,31 @@ impl Front {
         }
     }
 
+    /// hot_reload on a helper thread; false if it has not returned after `d`.
+    pub fn hot_reload_timeout(&self, d: std::time::Duration) -> bool {
+        let c: &AssetCache<MemSource> = match &self.cache {
+            Cache::Shared(b) => b,
+            Cache::Static(b) => b,
+            Cache::Local(_) => return true,
+        };
+        std::thread::scope(|sc| {
+            let (tx, rx) = std::sync::mpsc::channel();
+            sc.spawn(move || {
+                crate::trace::set_thread("main");
+                c.hot_reload();
+                let _ = tx.send(());
+            });
+            match rx.recv_timeout(d) {
+                Ok(()) => true,
+                Err(_) => {
+                    // the scope would join the blocked thread: report from here instead
+                    false_exit_hook();
+                    false
+                }
+            }
+        })
+    }
+
     pub fn enhance(&self) {
         if let Cache::Static(b) = &self.cache {
             b.enhance_hot_reloading()
@@ -188,3 +255,15 @@ impl Front {
         })
     }
 }
+
+/// Called when a hot_reload call is found blocked: the caller prints its report and
+/// exits the process (a scoped thread that never returns cannot be joined).
+fn false_exit_hook() {
+    if let Some(f) = BLOCKED_HOOK.lock().unwrap().as_ref() {
+        f();
+    }
+    println!("REPORT {}", serde_json::json!({"cases":1,"checks":0,"mismatches":[{"what":"hot_reload did not return within the time limit","d8":false}],"notes":["aborted"],"extra":{}}));
+    std::process::exit(0);
+}
+
+pub static BLOCKED_HOOK: std::sync::Mutex<Option<Box<dyn Fn() + Send>>> = std::sync::Mutex::new(None);
